@@ -183,7 +183,11 @@ def dir_cases(rng, workdir, tier):
         cs = Dataset()
         cs.AffectedSOPClassUID = CT
         cs.AffectedSOPInstanceUID = uid
-        for rep in range(rng.choice([2, 3, 5])):
+        for rep in range(rng.choice([2, 3, 5, 6])):
+            # the application clears out one of the earlier copies now and then: the names then have a gap
+            mine = sorted(n for n in os.listdir(d) if n.startswith(uid + '.dcm'))
+            if rep >= 2 and len(mine) >= 2 and rng.random() < 0.5:
+                os.remove(os.path.join(d, rng.choice(mine[:-1])))
             # some unrelated files too
             if rep == 0 and rng.random() < 0.5:
                 open(os.path.join(d, 'other.dcm'), 'wb').write(b'zz')
